@@ -88,6 +88,7 @@ class CurveDriver(hist.Driver):
     def pre_info(self, w, op):
         idnt = w.idnt
         return {"canon": cn.indent_canon(idnt),
+                "visible": _visible(idnt),
                 "has_hash": "hash" in idnt.fit_properties,
                 "settings": ops.settings_of(idnt),
                 "results": ops.results_of(idnt),
@@ -121,7 +122,7 @@ class CurveDriver(hist.Driver):
                     viol("refit-on-unchanged",
                          f"{obs['minimize']} optimisations although every "
                          "keyword equals the stored value")
-                if cn.indent_canon(idnt) != pre["canon"]:
+                if _visible(idnt) != pre["visible"]:
                     viol("refit-on-unchanged",
                          "state changed by a fit with unchanged settings: "
                          + _diff_fields(pre, idnt))
@@ -321,6 +322,17 @@ def _maxdiff(a, b):
         return "n/a"
 
 
+def _visible(idnt):
+    """what "changes nothing" is about: settings, results, columns and the
+    remembered rating - not the curve's note of which pipeline was
+    requested last (`Indentation.preprocessing` may lag behind after a
+    rejected request and is brought up to date by the next request; the
+    stored setting `fit_properties["preprocessing"]` is compared)"""
+    f = cn.indent_fields(idnt)
+    return {k: v for k, v in f.items()
+            if k not in ("preprocessing", "preprocessing_options", "details")}
+
+
 def _diff_fields(pre, idnt):
     post = ops.settings_of(idnt)
     ch = [k for k in set(post) | set(pre["settings"])
@@ -518,6 +530,7 @@ class PipelineEdits(CurveDriver):
     ]
 
     def apply(self, w, op):
+        w.edited_before = getattr(w, "pipeline_edited", False)
         obs = super().apply(w, op)
         if op[0] == "E" and op[1] in PIPELINE_KEYS and obs["ok"]:
             fp = w.idnt.fit_properties
@@ -530,6 +543,20 @@ class PipelineEdits(CurveDriver):
                                                    for k in PIPELINE_KEYS)):
             w.pipeline_edited = False
         return obs
+
+    def check_transition(self, pre, op, obs, w, hops):
+        out = super().check_transition(pre, op, obs, w, hops)
+        if getattr(w, "edited_before", False) and op[0] == "F" \
+                and "preprocessing" in op[1] \
+                and "preprocessing_options" not in op[1]:
+            # the request takes its options from the curve's own note of
+            # the last request, which the direct edit could not reach: it
+            # is a request for other options than the stored (edited) ones
+            for v in out:
+                if v["clause"] == "refit-on-unchanged":
+                    v["site"] = "F:pipeline-key-edited-directly"
+                    v["witness"] = "after-E-on-pipeline-key:" + v["witness"]
+        return out
 
     def check_state(self, w, hops):
         out = super().check_state(w, hops)
@@ -585,7 +612,7 @@ def run(tier):
     plan = {
         "quick": [("broad", 3), ("plateau", 3), ("gcf_relative", 3),
                   ("failures", 4), ("failures_innate", 3),
-                  ("initial_params", 3), ("pipeline_edits", 3)],
+                  ("initial_params", 3), ("pipeline_edits", 4)],
         "thorough": [("broad", 4), ("plateau", 5), ("gcf_relative", 5),
                      ("failures", 6), ("failures_innate", 5),
                      ("initial_params", 4), ("recorded", 3),
